@@ -103,7 +103,10 @@ def rule_tree_surgery(db: ProgramDB) -> List[Instance]:
                         (f"`{P}.{slot} = {W}`; the wrapped node is never the `{other}` operand of a selector here: "
                          f"re-targeted to the parent for {excluded}") if ok else
                         (f"only `{P}.{slot}` is re-pointed; the wrapped node can be the `{other}` operand of "
-                         f"{missing}, whose `{other}` field would keep pointing at the old node"),
+                         f"{missing} (re-targeting to the parent selector must be repeated until no selector parent "
+                         f"matches: after one step the node can be the `{other}` operand of the next selector up, e.g. "
+                         f"the third of three sibling alternatives), whose `{other}` field would keep pointing at the old "
+                         f"node while its `{slot}` branch is overwritten"),
                         line=attach[0].lineno))
     return out
 
@@ -119,11 +122,15 @@ def _enclosing_tests(db: ProgramDB, node: ast.AST) -> List[ast.AST]:
 
 
 def _left_case_excluded(db, fn: FuncInfo, node_name: str, selector_classes: List[ClassInfo], other: str):
-    """Which selector classes are covered by a re-targeting `if isinstance(node._parent_, (S,...)) [and node is
-    node._parent_.<other>]: node = node._parent_`."""
+    """Which selector classes are covered by a *closed* re-targeting
+        while …: if isinstance(node._parent_, (S,...)) [and node is node._parent_.<other>]: node = node._parent_ … else: break
+    A one-shot `if` is not enough: after one step the node (now a selector) can itself be the `<other>` operand of an
+    enclosing selector of the same family."""
     covered: Set[str] = set()
+    loops = [n for n in own_nodes(fn.node) if isinstance(n, ast.While)]
+    in_loop = {id(x) for l in loops for x in ast.walk(l)}
     for n in own_nodes(fn.node):
-        if isinstance(n, ast.If):
+        if isinstance(n, ast.If) and id(n) in in_loop:
             cur = n
             while True:
                 body_retargets = any(isinstance(s, ast.Assign) and unparse(s.targets[0]) == node_name and
